@@ -168,6 +168,9 @@ func runCheck(id, tier string) int {
 			}
 			// unbounded pass: every schedule (no preemption bound) modulo commuting steps
 			if unb {
+				if tier == "thorough" {
+					selfTestReduction(g.name, all, func(sc *Scenario) bool { return !sc.BoundedOnly }, 20, rep)
+				}
 				unboundedIsExtra = !instead
 				runExploreSel(id, g.name, all, -1, tier, rep, func(sc *Scenario) bool { return !sc.BoundedOnly })
 				unboundedIsExtra = false
